@@ -376,26 +376,30 @@ func (s *ledgerSnap) checkInvariants(env *Env, hist []string, tolerateOrphans bo
 // ---- the domain -------------------------------------------------------------------------
 
 type ledgerWorld struct {
-	c           *Chain
-	env         *Env
-	rng         *RNG
-	hist        []string
-	stakers     []Actor
-	ops         []sdk.AccAddress // registered operators (validators first)
-	assets      []AssetSpec
-	nonce       uint64
-	slashN      int
-	curDec      uint32     // decimals of the asset the current op is about
-	nstakers    []Actor    // accounts holding native tokens that delegate the native asset
-	forced      []forcedOp // scripted next operations (directed sub-scenarios inside a random history)
-	lastSlash   *slashEvent
-	huge        bool // extreme amounts (2^64..2^200); such histories never reach an epoch end (see C11 findings F-11f/g)
-	gDep        map[string]*big.Int
-	gWd         map[string]*big.Int
-	gSl         map[string]*big.Int
-	orphans     bool // a known-finding directed scenario left orphaned records behind
-	rewardTried bool // the nst-reward-withdraw sub-scenario was injected in this history
-	nstMode     bool // history with native-restaking balance adjustments (UpdateNSTBalance), replayed by the model like every other op
+	c                *Chain
+	env              *Env
+	rng              *RNG
+	hist             []string
+	stakers          []Actor
+	ops              []sdk.AccAddress // registered operators (validators first)
+	assets           []AssetSpec
+	nonce            uint64
+	slashN           int
+	curDec           uint32     // decimals of the asset the current op is about
+	nstakers         []Actor    // accounts holding native tokens that delegate the native asset
+	forced           []forcedOp // scripted next operations (directed sub-scenarios inside a random history)
+	lastSlash        *slashEvent
+	huge             bool // extreme amounts (2^64..2^200); such histories never reach an epoch end (see C11 findings F-11f/g)
+	gDep             map[string]*big.Int
+	gWd              map[string]*big.Int
+	gSl              map[string]*big.Int
+	orphans          bool     // a known-finding directed scenario left orphaned records behind
+	nativeRegistered bool     // the native token was registered as a staking asset in this history
+	nativeTried      bool     // the native-slashed-while-pending sub-scenario was injected
+	forceTargeted    bool     // the current (scripted) slash must aim at a chosen proportion
+	rewardTried      bool     // the nst-reward-withdraw sub-scenario was injected in this history
+	extraHolds       []string // record keys on which a second AVS (emulated) currently holds one more count
+	nstMode          bool     // history with native-restaking balance adjustments (UpdateNSTBalance), replayed by the model like every other op
 }
 
 func (w *ledgerWorld) emit(op, obs string) {
@@ -559,6 +563,7 @@ func domLedger(env *Env) error {
 				return fmt.Errorf("register native token: %w", err)
 			}
 			env.Outcome("history.native-registered")
+			w.nativeRegistered = true
 		}
 		// accounts delegating the native token (funded from the genesis account)
 		ledgerNativeStakers = map[string]sdk.AccAddress{}
@@ -736,6 +741,20 @@ func (w *ledgerWorld) step(prev *ledgerSnap, kinds map[string]int) *ledgerSnap {
 		w.forced = append(w.forced, forcedOp{5, fs, 0, fo, 0})
 		w.env.Outcome("scenario.multi-asset-association")
 	}
+	if w.nativeRegistered && !w.nativeTried && len(w.forced) == 0 && len(w.nstakers) > 0 {
+		// directed sub-scenario, once per history in which the native token is a registered staking
+		// asset: a native delegation, an undelegation, two slashes of the operator while the record is
+		// pending (its ActualCompletedAmount falls below its Amount), then blocks until it matures: the
+		// escrow account must pay out exactly what is still owed
+		w.nativeTried = true
+		ns, vo := w.nstakers[r.Intn(len(w.nstakers))], w.ops[r.Intn(len(c.Operators))]
+		w.forced = append(w.forced, forcedOp{2, ns, -1, vo, int64(400 + r.Intn(500))}, forcedOp{3, ns, -1, vo, int64(100 + r.Intn(200))},
+			forcedOp{8, ns, -1, vo, 0}, forcedOp{7, ns, -1, vo, 0}, forcedOp{7, ns, -1, vo, 0})
+		for i := 0; i < 5; i++ {
+			w.forced = append(w.forced, forcedOp{8, ns, -1, vo, 0})
+		}
+		w.env.Outcome("scenario.native-slashed-while-pending")
+	}
 	if w.nstMode && !w.rewardTried && len(w.forced) == 0 && len(w.assets) >= 2 {
 		// directed sub-scenario, once per NST history: the ONLY depositor of an asset receives a
 		// positive NST adjustment (a client-chain staking reward: deposit and withdrawable balance grow,
@@ -770,10 +789,18 @@ func (w *ledgerWorld) step(prev *ledgerSnap, kinds map[string]int) *ledgerSnap {
 		f := w.forced[0]
 		w.forced = w.forced[1:]
 		native = false
-		st, ai, op, forcedKind, forcedAmt = f.st, f.ai, f.op, f.kind, f.amt
-		asset, sid = c.AssetIDs[ai], StakerIDOf(c.LzID, st.Eth)
-		w.curDec = w.assets[ai].Decimals
-		lz, saddr, aaddr = c.LzID, st.Eth.Bytes(), w.assetAddr(ai)
+		op, forcedKind, forcedAmt = f.op, f.kind, f.amt
+		w.forceTargeted = f.kind == 7
+		if f.ai < 0 { // scripted op on the native token
+			useNative(f.st)
+		} else {
+			st, ai = f.st, f.ai
+			asset, sid = c.AssetIDs[ai], StakerIDOf(c.LzID, st.Eth)
+			w.curDec = w.assets[ai].Decimals
+			lz, saddr, aaddr = c.LzID, st.Eth.Bytes(), w.assetAddr(ai)
+		}
+	} else {
+		w.forceTargeted = false
 	}
 	if native {
 		useNative(w.nstakers[r.Intn(len(w.nstakers))])
@@ -814,6 +841,11 @@ func (w *ledgerWorld) step(prev *ledgerSnap, kinds map[string]int) *ledgerSnap {
 	}
 	if w.nstMode && forcedKind < 0 && !native && r.Chance(1, 5) {
 		kind = 9
+	}
+	if forcedKind < 0 && !w.nstMode && r.Chance(1, 12) {
+		// a second AVS (emulated through the delegation keeper's own entry points) places or releases
+		// an additional hold on a pending record: a record must stay pending while ANY hold remains
+		return w.extraHold(prev)
 	}
 	switch kind {
 	case 9: // native-restaking balance adjustment (what the oracle's balance-change message triggers)
@@ -1113,7 +1145,7 @@ func (w *ledgerWorld) slash(prev *ledgerSnap, op sdk.AccAddress) *ledgerSnap {
 	// every other slash aims at a chosen effective proportion (0.3 .. 0.9 of the operator's current
 	// value) instead of a random power x factor, so that one pending record is regularly hit by
 	// two partial slashes whose cuts add up to more than the record (the cap of the second cut).
-	if r.Chance(1, 2) {
+	if r.Chance(1, 2) || w.forceTargeted {
 		if info, verr := c.App.OperatorKeeper.CalculateUSDValueForOperator(c.Ctx, true, op.String(), nil, nil, nil); verr == nil && info.StakingAndWaitUnbonding.IsPositive() {
 			target := []string{"0.3", "0.5", "0.6", "0.9"}[r.Intn(4)]
 			pw := sdkmath.LegacyMustNewDecFromStr(target).Mul(info.StakingAndWaitUnbonding).MulInt64(1000000).TruncateInt()
@@ -1798,4 +1830,70 @@ func (w *ledgerWorld) directedNstOvershoot() {
 		w.env.Violate("C01.nst-adjustment", "F-01a:nst-decrease-exceeds-report",
 			fmt.Sprintf("UpdateNSTBalance(%s) for a staker with %s delegated lowered the ledger value by %s and the staker's total deposit by %s: more than the reported decrease (slashProportion 7/10^19 rounds half-even up to 10^-18)", x, amt, new(big.Int).Neg(dv), new(big.Int).Neg(dt)), w.hist)
 	}
+}
+
+// extraHold emulates a second AVS: it increments the hold count of a pending record through
+// DelegationKeeper.IncrementUndelegationHoldCount, or releases one of the holds it placed earlier
+// through DecrementUndelegationHoldCount. Both are shown to the model (`ledger.hold` / `ledger.release`).
+func (w *ledgerWorld) extraHold(prev *ledgerSnap) *ledgerSnap {
+	c, r := w.c, w.rng
+	keyOf := func(k string) ([]byte, []string, bool) {
+		f := strings.Split(k, "/")
+		if len(f) != 4 {
+			return nil, nil, false
+		}
+		return []byte(k), f, true
+	}
+	release := len(w.extraHolds) > 0 && (r.Chance(1, 2) || len(prev.recs) == 0)
+	if release {
+		i := r.Intn(len(w.extraHolds))
+		k := w.extraHolds[i]
+		w.extraHolds = append(w.extraHolds[:i], w.extraHolds[i+1:]...)
+		kb, f, ok := keyOf(k)
+		if !ok {
+			return prev
+		}
+		err := c.CachedDo(func(ctx sdk.Context) error { return c.App.DelegationKeeper.DecrementUndelegationHoldCount(ctx, kb) })
+		after := w.snapAndCheck()
+		res := "ok"
+		if err != nil {
+			res = "rej"
+		}
+		hh, _ := hexutil.DecodeUint64(f[1])
+		nn, _ := hexutil.DecodeUint64(f[2])
+		w.emit(fmt.Sprintf("ledger.release %s %d %d %s", f[0], hh, nn, f[3]), res+" "+after.dump())
+		w.env.Outcome("extrahold.release." + ledgerErrClass(err))
+		after.checkInvariants(w.env, w.hist, w.orphans)
+		if err == nil {
+			w.env.Eval("C03.hold")
+			if _, still := prev.recs[k]; still {
+				if after.holds[k]+1 != prev.holds[k] {
+					w.env.Violate("C03.hold", "hold-count-after-release", fmt.Sprintf("releasing one hold on %s changed the count from %d to %d", k, prev.holds[k], after.holds[k]), w.hist)
+				}
+			}
+		}
+		return after
+	}
+	ks := sortedKeys(prev.recs)
+	if len(ks) == 0 {
+		return prev
+	}
+	k := ks[r.Intn(len(ks))]
+	kb, f, ok := keyOf(k)
+	if !ok {
+		return prev
+	}
+	err := c.CachedDo(func(ctx sdk.Context) error { return c.App.DelegationKeeper.IncrementUndelegationHoldCount(ctx, kb) })
+	after := w.snapAndCheck()
+	if err == nil {
+		w.extraHolds = append(w.extraHolds, k)
+	}
+	hh, _ := hexutil.DecodeUint64(f[1])
+	nn, _ := hexutil.DecodeUint64(f[2])
+	if err == nil {
+		w.emit(fmt.Sprintf("ledger.hold %s %d %d %s", f[0], hh, nn, f[3]), "ok "+after.dump())
+	}
+	w.env.Outcome("extrahold.hold." + ledgerErrClass(err))
+	after.checkInvariants(w.env, w.hist, w.orphans)
+	return after
 }
